@@ -80,6 +80,17 @@ func c04Check(c C04Case, cx *h.Ctx) *h.Failure {
 	}
 
 	lib := g.AsBinary()
+	// the returned bytes are the caller's: later encodings (same geometry, another of the same type, others) leave them alone
+	{
+		held := append([]byte(nil), lib...)
+		for _, other := range []geom.Geometry{dirty(model.T), g, dirty(gm.GeometryCollection)} {
+			other.AsBinary()
+			other.AppendWKB(nil)
+		}
+		if !bytes.Equal(lib, held) {
+			return h.Failf("wkb/result-overwritten", "the bytes returned by AsBinary() changed after later AsBinary/AppendWKB calls:\nwas %x\nnow %x", held, lib)
+		}
+	}
 	// (f) independent reader decodes the library's bytes to the model
 	dec, used, err := codec.DecodeWKB(lib)
 	if err != nil {
